@@ -30,6 +30,9 @@ def casegen(rnd):
         nreg[0] += 1; return nreg[0] - 1
     ncalls = rnd.choice([1, 1, 2])
     meta = []
+    guard_reg = None
+    if rnd.random() < 0.35:
+        guard_reg = reg(); prog.append(["input", guard_reg, "priv", 0])
     use_float = rnd.random() < 0.35
     for _ in range(ncalls):
         nargs = rnd.choice([1, 2, 3, 4])
@@ -65,9 +68,21 @@ def casegen(rnd):
             rts.append(t)
         res = rts[0] if len(rts) == 1 else ["tuple", rts]
         d = reg()
-        prog.append(["snark", d, args, body, res])
-        meta.append(dict(args=args, argvals=dict(zip(argregs, argvals)), res=res, body=body, plain=extra))
-    return dict(cfg=cfg, prog=prog, ins=[], meta=meta, use_float=use_float)
+        st = ["snark", d, args, body, res]
+        if guard_reg is not None and rnd.random() < 0.7:
+            # the wrapped call is made inside a region with a secret guard (taken or not): arguments and results are exposed and
+            # tied to their wires all the same, and the constraint system does not depend on the guard's value
+            st = ["guarded", guard_reg, [st]]
+        prog.append(st)
+        meta.append(dict(args=args, argvals=dict(zip(argregs, argvals)), res=res, body=body, plain=extra, guarded=(st[0] == "guarded")))
+    return dict(cfg=cfg, prog=prog, ins=[rnd.choice([0, 1])] if guard_reg is not None else [], meta=meta, use_float=use_float)
+
+
+def variants(case, rnd):
+    if not case["ins"]: return []
+    import copy
+    v = copy.deepcopy(case); v["ins"] = [1 - case["ins"][0]]
+    return [v]
 
 
 def expected_returns(case, m):
@@ -117,6 +132,12 @@ def oracle(case, rec, group):
         nsecret = sum(1 for l in res_leaves if l not in m["plain"])
         want = expected_returns(case, m)
         got = plain_of(ret)
+        # inside a region that is not taken the computed values are not meaningful (run-time checks and hints are off there):
+        # what is compared is what is exposed (the arguments, the number of outputs) and, across guard values, the constraints
+        not_taken = m.get("guarded") and case["ins"] and case["ins"][0] == 0
+        if not_taken:
+            pos += nsecret
+            continue
         if got != want:
             out.append(dict(op="snark", key="returned-values", what="wrapped call returned %r, the undecorated function gives %r" % (got, want))); return out
         # each secret result is one public output carrying its value (ints first, then fixed point, then booleans: by class passes)
@@ -130,6 +151,13 @@ def oracle(case, rec, group):
         out.append(dict(op="snark", key="extra-public", what="%d public values were created, %d expected (arguments + secret results)" % (len(pubs), pos)))
     if rec["unsat"]:
         out.append(dict(op="snark", key="unsatisfied", what="linking constraints violated by the recorded witness"))
+    if group and case is group[0][0]:
+        done = [(c, r) for c, r in group if r["exn"] is None]
+        for c, r in done[1:]:
+            if r["shape"] != done[0][1]["shape"]:
+                out.append(dict(op="snark", key="shape-depends-on-guard", what="the constraints recorded for a wrapped call inside a guarded region depend on the guard's value (a result is not tied to its wire in one of the runs)",
+                                case=dict(cfg=c["cfg"], prog=c["prog"], ins=c["ins"], other_ins=done[0][0]["ins"])))
+                break
     return out
 
 
@@ -147,7 +175,7 @@ def post(cov, cases, recs):
 
 
 def run(tier, seed):
-    return tracecheck.run(PID, tier, seed, {}, oracle, n_quick=250, n_thorough=4000, casegen=casegen, post=post,
+    return tracecheck.run(PID, tier, seed, {}, oracle, n_quick=300, n_thorough=4500, casegen=casegen, variants=variants, post=post,
                           mask=1 | 2 | 4 | 8, shrink_budget=6)
 
 
